@@ -3,8 +3,8 @@
 N="$1"; shift
 WT=/tmp/seed_$N; OUT=/tmp/seedout_$N
 cd /tmp
-PYTHONPATH=$WT /venv/bin/python $OUT/demo.py >/dev/null 2>&1; echo "demo with change: rc=$?"
-PYTHONPATH=/repo /venv/bin/python $OUT/demo.py >/dev/null 2>&1; echo "demo on /repo:    rc=$?"
+PATH=/verif/shims/bin:$PATH PYTHONPATH=$WT:/verif/shims /venv/bin/python $OUT/demo.py >/dev/null 2>&1; echo "demo with change: rc=$?"
+PATH=/verif/shims/bin:$PATH PYTHONPATH=/repo:/verif/shims /venv/bin/python $OUT/demo.py >/dev/null 2>&1; echo "demo on /repo:    rc=$?"
 cd /verif
 git -C /repo apply $OUT/patch.diff || { echo "PATCH DOES NOT APPLY"; exit 1; }
 tools/baseline.sh
